@@ -194,6 +194,46 @@ def mode_dump_hex(cases):
     return out
 
 
+def mode_golden_make(cases):
+    """freeze archives written by the tree as it is NOW: spec, schema.json text, members (hex)"""
+    import skops.io as sio
+    out = []
+    for spec in cases:
+        try:
+            obj = build(spec)
+            data = sio.dumps(obj)
+            back = sio.loads(data, trusted=sio.get_untrusted_types(data=data))
+            if fingerprint(back) != fingerprint(obj):
+                out.append(None)
+                continue
+            with zipfile.ZipFile(io.BytesIO(data)) as z:
+                out.append({"spec": spec, "schema": z.read("schema.json").decode(), "members": {n: z.read(n).hex() for n in z.namelist() if n != "schema.json"}})
+        except Exception:
+            out.append(None)
+    return out
+
+
+def mode_golden_check(cases):
+    """C08: archives frozen from an earlier state of the tree must still load to the value they were written from"""
+    import skops.io as sio
+    out = []
+    for g in cases:
+        buf = io.BytesIO()
+        with zipfile.ZipFile(buf, "w") as z:
+            z.writestr("schema.json", g["schema"])
+            for n, hx in g["members"].items():
+                z.writestr(n, bytes.fromhex(hx))
+        data = buf.getvalue()
+        try:
+            want = fingerprint(build(g["spec"]))
+            gut = sio.get_untrusted_types(data=data)
+            back = sio.loads(data, trusted=gut)
+            out.append("same" if fingerprint(back) == want else "DIFFERENT")
+        except Exception as e:
+            out.append("raises:" + exc_name(e) + ":" + str(e)[:100])
+    return out
+
+
 def rewrite_old(schema, proto):
     """the archive layout skops wrote under an older protocol, at every nesting position"""
     n = {"fn": 0, "rg": 0}
@@ -540,7 +580,8 @@ def mode_sinks(cases):
     return [one_sinks(sio, spec, opts) for spec in cases[1:]]
 
 
-MODES = {"roundtrip": mode_roundtrip, "dump_hex": mode_dump_hex, "old_layouts": mode_old_layouts, "codec": mode_codec, "sinks": mode_sinks}
+MODES = {"roundtrip": mode_roundtrip, "dump_hex": mode_dump_hex, "old_layouts": mode_old_layouts, "codec": mode_codec, "sinks": mode_sinks,
+         "golden_make": mode_golden_make, "golden_check": mode_golden_check}
 
 if __name__ == "__main__":
     req = json.load(sys.stdin)
